@@ -511,6 +511,20 @@ namespace vw
                 return ob::Cost(1.0 + 0.5 * y + 0.1 * x);
             }
         };
+        // a NON-linear cost field: the trapezoid rule of the interpolated motion cost then depends on where the sample points are, so the
+        // discretisation itself (number and position of the interpolation points, direction of traversal) is exercised
+        struct FieldIntegralNL : ob::StateCostIntegralObjective
+        {
+            FieldIntegralNL(const ob::SpaceInformationPtr &si) : ob::StateCostIntegralObjective(si, true)
+            {
+            }
+            ob::Cost stateCost(const ob::State *s) const override
+            {
+                double x, y;
+                xy(si_->getStateSpace().get(), s, x, y);
+                return ob::Cost(1.0 + 0.35 * y * y + 0.2 * std::sin(1.3 * x) * std::sin(1.3 * x));
+            }
+        };
         struct FieldWork : ob::MechanicalWorkOptimizationObjective
         {
             FieldWork(const ob::SpaceInformationPtr &si) : ob::MechanicalWorkOptimizationObjective(si)
@@ -529,6 +543,8 @@ namespace vw
             const std::string &k = cfg.objectiveKind;
             if (k == "integral")
                 o = std::make_shared<FieldIntegral>(si);
+            else if (k == "integralnl")
+                o = std::make_shared<FieldIntegralNL>(si);
             else if (k == "work")
                 o = std::make_shared<FieldWork>(si);
             else if (k == "clearance")
